@@ -31,7 +31,9 @@ X509Good    == {"idA", "idA+", "idAs", "idB"}
 X509Bad     == {"missingC", "missingST", "missingO", "dupAttr", "multiRDN", "hashForm", "garbageDN"}
 IdAtoms     == {"*", "", "noColon", "emptyValue", "other:foo"} \cup X509Good \cup X509Bad
 GoodScopes  == {"r", "r/x", "rx", "r:5000", "r-dash", "r_us"}
-BadScopes   == {"upper", "tagged", "schemed", "starIn", "noSlash", "emptyRepo"}
+(* "badHost": a well-formed repository path behind a registry host that is not one (an underscore, an empty label, a leading
+   dash, a port that is not a number, user information) *)
+BadScopes   == {"upper", "tagged", "schemed", "starIn", "noSlash", "emptyRepo", "badHost"}
 ScopeAtoms  == {"*"} \cup GoodScopes \cup BadScopes
 
 (* abstract DN of the good x509 identities: attribute -> value *)
